@@ -59,6 +59,7 @@ Record urec := mkU {
   jw : jwake;
   fresh : bool;         (* true until the function has been entered in this incarnation *)
   cbother : option nat; (* resume_suspend_to callback: the unit that was resumed *)
+  jof : option nat;     (* this target's registered joiner: the caller whose fetch_or found JOIN clear *)
   (* ghost *)
   cnt : list nat;       (* pools whose num_blocked currently count this unit (one entry per outstanding increment:
                            a resumed unit may block again before its resumer has decremented) *)
@@ -74,7 +75,7 @@ Record st := mkS {
   seen : nat -> nat -> bool   (* seen a u: actor a's last state load of unit u returned TERMINATED *)
 }.
 
-Definition u0 : urec := mkU UNone 0 0 false false false false false None None 0 JW0 true None [] 0 0 false.
+Definition u0 : urec := mkU UNone 0 0 false false false false false None None 0 JW0 true None None [] 0 0 false.
 Definition init : st := mkS (fun _ => u0) (fun _ => mkP [] 0) (fun _ _ => false).
 
 Definition upd {A} (f : nat -> A) (t : nat) (v : A) : nat -> A :=
@@ -87,31 +88,34 @@ Definition set_p (s : st) (p : nat) (r : prec) : st := mkS (un s) (upd (po s) p 
 
 Definition with_ust (r : urec) (x : ustate) : urec :=
   mkU x (ost r) (upool r) (isult r) (named r) (rjoin r) (rcancel r) (rmig r) (link r) (migt r) (migs r) (jw r)
-      (fresh r) (cbother r) (cnt r) (starts r) (fins r) (adopted r).
+      (fresh r) (cbother r) (jof r) (cnt r) (starts r) (fins r) (adopted r).
 Definition with_ust_ost (r : urec) (x : ustate) (o : Z) : urec :=
   mkU x o (upool r) (isult r) (named r) (rjoin r) (rcancel r) (rmig r) (link r) (migt r) (migs r) (jw r)
-      (fresh r) (cbother r) (cnt r) (starts r) (fins r) (adopted r).
+      (fresh r) (cbother r) (jof r) (cnt r) (starts r) (fins r) (adopted r).
 Definition with_jw (r : urec) (j : jwake) : urec :=
   mkU (ust r) (ost r) (upool r) (isult r) (named r) (rjoin r) (rcancel r) (rmig r) (link r) (migt r) (migs r) j
-      (fresh r) (cbother r) (cnt r) (starts r) (fins r) (adopted r).
+      (fresh r) (cbother r) (jof r) (cnt r) (starts r) (fins r) (adopted r).
 Definition with_pool (r : urec) (p : nat) : urec :=
   mkU (ust r) (ost r) p (isult r) (named r) (rjoin r) (rcancel r) (rmig r) (link r) (migt r) (migs r) (jw r)
-      (fresh r) (cbother r) (cnt r) (starts r) (fins r) (adopted r).
+      (fresh r) (cbother r) (jof r) (cnt r) (starts r) (fins r) (adopted r).
 Definition with_req (r : urec) (j c m : bool) : urec :=
   mkU (ust r) (ost r) (upool r) (isult r) (named r) j c m (link r) (migt r) (migs r) (jw r)
-      (fresh r) (cbother r) (cnt r) (starts r) (fins r) (adopted r).
+      (fresh r) (cbother r) (jof r) (cnt r) (starts r) (fins r) (adopted r).
 Definition with_link (r : urec) (l : option nat) : urec :=
   mkU (ust r) (ost r) (upool r) (isult r) (named r) (rjoin r) (rcancel r) (rmig r) l (migt r) (migs r) (jw r)
-      (fresh r) (cbother r) (cnt r) (starts r) (fins r) (adopted r).
+      (fresh r) (cbother r) (jof r) (cnt r) (starts r) (fins r) (adopted r).
 Definition with_mig (r : urec) (t : option nat) (g : nat) : urec :=
   mkU (ust r) (ost r) (upool r) (isult r) (named r) (rjoin r) (rcancel r) (rmig r) (link r) t g (jw r)
-      (fresh r) (cbother r) (cnt r) (starts r) (fins r) (adopted r).
+      (fresh r) (cbother r) (jof r) (cnt r) (starts r) (fins r) (adopted r).
 Definition with_other (r : urec) (o : option nat) : urec :=
   mkU (ust r) (ost r) (upool r) (isult r) (named r) (rjoin r) (rcancel r) (rmig r) (link r) (migt r) (migs r) (jw r)
-      (fresh r) o (cnt r) (starts r) (fins r) (adopted r).
+      (fresh r) o (jof r) (cnt r) (starts r) (fins r) (adopted r).
+Definition with_jof (r : urec) (o : option nat) : urec :=
+  mkU (ust r) (ost r) (upool r) (isult r) (named r) (rjoin r) (rcancel r) (rmig r) (link r) (migt r) (migs r) (jw r)
+      (fresh r) (cbother r) o (cnt r) (starts r) (fins r) (adopted r).
 Definition with_cnt (r : urec) (c : list nat) : urec :=
   mkU (ust r) (ost r) (upool r) (isult r) (named r) (rjoin r) (rcancel r) (rmig r) (link r) (migt r) (migs r) (jw r)
-      (fresh r) (cbother r) c (starts r) (fins r) (adopted r).
+      (fresh r) (cbother r) (jof r) c (starts r) (fins r) (adopted r).
 
 Inductive ev :=
 | EAdopt (u p : nat) (ult : bool)          (* a unit that already runs when the history starts *)
@@ -122,7 +126,8 @@ Inductive ev :=
 | EPop (p : nat) (u : option nat) (tail : bool)
 | ERemove (p u : nat)
 | EReqLoad (u : nat) (site : nat) (j c m : bool)   (* site 0: handle_request without termination, 1: with, 2: main scheduler loop *)
-| EReqOr (u : nat) (bit : nat) (exiter : bool) (j c m : bool)   (* bit 0 JOIN 1 CANCEL 2 MIGRATE; j c m = old value *)
+| EReqOr (u : nat) (bit : nat) (exiter : bool) (j c m : bool) (who : nat)   (* bit 0 JOIN 1 CANCEL 2 MIGRATE; j c m = old value;
+                                                                           who: the joiner (unit id, or dummy id of an external joiner) *)
 | EReqAnd (u : nat) (bit : nat)
 | EState (u : nat) (v : Z)
 | EStLoad (a u : nat) (site : nat) (v : Z)
@@ -134,7 +139,9 @@ Inductive ev :=
 | EStart (u : nat) | EFinish (u : nat)
 | EFree (u : nat)
 | EMigSt (u p : nat) | EMigLd (u p : nat) | EMigCb (u : nat)
-| EJoinRet (a u : nat).                    (* ABT_thread_join / free of u returns to actor a *)
+| EJoinRet (a u : nat)                     (* ABT_thread_join / free of u returns to actor a *)
+| EEmptyLoad (p : nat) (v : bool)          (* lock-free read of the queue's is_empty flag *)
+| ENbLoad (p : nat) (v : Z).               (* ABTI_sched_has_unit: read of num_blocked *)
 
 Definition yield_kind (k : cbk) : bool :=
   match k with KYield | KThreadYieldTo | KResumeYieldTo => true | _ => false end.
@@ -170,19 +177,20 @@ Definition step (s : st) (e : ev) : option st :=
   match e with
   | EAdopt u p ult =>
       match ust (un s u) with
-      | UNone => Some (set_u s u (mkU URunning 1 p ult true false false false None None 0 JW0 false None [] 1 0 true))
+      | UNone => Some (set_u s u (mkU URunning 1 p ult true false false false None None 0 JW0 false None None [] 1 0 true))
       | _ => None
       end
   | EInit u p ult nmd =>
       match ust (un s u) with
-      | UNone => Some (set_u s u (mkU UCreated 0 p ult nmd false false false None None 0 JW0 true None [] 0 0 false))
+      | UNone => Some (set_u s u (mkU UCreated 0 p ult nmd false false false None None 0 JW0 true None None [] 0 0 false))
       | _ => None
       end
   | ERevive u p =>
       let r := un s u in
       match ust r with
       | UTerm => if named r then
-                   Some (set_u s u (mkU UCreated 0 p (isult r) true false false false None (migt r) 0 JW0 true None (cnt r) 0 0 false))
+                   Some (mkS (upd (un s) u (mkU UCreated 0 p (isult r) true false false false None (migt r) 0 JW0 true None None (cnt r) 0 0 false))
+                             (po s) (fun a x => if Nat.eqb x u then false else seen s a x))
                  else None
       | _ => None
       end
@@ -258,7 +266,7 @@ Definition step (s : st) (e : ev) : option st :=
             end
         end
       else None
-  | EReqOr u bit exiter j c m =>
+  | EReqOr u bit exiter j c m who =>
       let r := un s u in
       if beq3 j c m (rjoin r) (rcancel r) (rmig r) then
         match bit with
@@ -271,7 +279,8 @@ Definition step (s : st) (e : ev) : option st :=
                   Some (set_u s u (with_jw r' (if j then JWSpin else JWNone)))
               | _, _ => None
               end
-            else Some (set_u s u r')
+            else (* a joiner: only the one that finds JOIN clear may later publish itself in p_link *)
+              Some (set_u s u (if j then r' else with_jof r' (Some who)))
         | 1 => Some (set_u s u (with_req r j true m))
         | _ => (* migrate: the target must have been stored first *)
             match migt r with Some _ => Some (set_u s u (with_req r j c true)) | None => None end
@@ -323,7 +332,8 @@ Definition step (s : st) (e : ev) : option st :=
       let r := un s tgt in
       match link r with
       | None =>
-          if rjoin r && (ext || match ust (un s j) with UBlocked => true | _ => false end)
+          if rjoin r && match jof r with Some x => Nat.eqb x j | None => false end &&
+             (ext || match ust (un s j) with UBlocked => true | _ => false end)
           then Some (set_u s tgt (with_link r (Some j))) else None
       | Some _ => None
       end
@@ -397,7 +407,7 @@ Definition step (s : st) (e : ev) : option st :=
       match ust r with
       | URunning => if fresh r then
           Some (set_u s u (mkU URunning (ost r) (upool r) (isult r) (named r) (rjoin r) (rcancel r) (rmig r) (link r)
-                               (migt r) (migs r) (jw r) false (cbother r) (cnt r) (S (starts r)) (fins r) (adopted r)))
+                               (migt r) (migs r) (jw r) false (cbother r) (jof r) (cnt r) (S (starts r)) (fins r) (adopted r)))
           else None
       | _ => None
       end
@@ -406,7 +416,7 @@ Definition step (s : st) (e : ev) : option st :=
       match ust r with
       | URunning => if fresh r then None else
           Some (set_u s u (mkU UFinished (ost r) (upool r) (isult r) (named r) (rjoin r) (rcancel r) (rmig r) (link r)
-                               (migt r) (migs r) (jw r) false (cbother r) (cnt r) (starts r) (S (fins r)) (adopted r)))
+                               (migt r) (migs r) (jw r) false (cbother r) (jof r) (cnt r) (starts r) (S (fins r)) (adopted r)))
       | _ => None
       end
   | EFree u =>
@@ -426,6 +436,8 @@ Definition step (s : st) (e : ev) : option st :=
       else None
   | EMigCb u => if Nat.eqb (migs (un s u)) 3 then Some s else None
   | EJoinRet a u => if seen s a u then Some s else None
+  | EEmptyLoad p v => if Bool.eqb v (match q (po s p) with [] => true | _ => false end) then Some s else None
+  | ENbLoad p v => if Z.eqb v (nb (po s p)) then Some s else None
   end.
 
 Fixpoint run (s : st) (tr : list ev) : option st :=
